@@ -108,3 +108,62 @@ func (w *World) accessors() []Accessor {
 	})
 	return out
 }
+
+// Iterator: a Keeper method `IterateX(ctx, cb)`; WalksAll = its body is exactly a walk of the whole
+// collection with the callback handed through (`k.C.Walk(ctx, nil, cb)`, error returned)
+type Iterator struct {
+	Name     string
+	Coll     string
+	WalksAll bool
+}
+
+func (w *World) iterators() []Iterator {
+	kp := w.mustPkg(keeperPkg)
+	var out []Iterator
+	for name, m := range kp.methods["Keeper"] {
+		if !strings.HasPrefix(name, "Iterate") || m.decl.Body == nil {
+			continue
+		}
+		it := Iterator{Name: name}
+		ps := paramNames(m.decl.Type.Params)
+		recv := ""
+		if len(m.decl.Recv.List[0].Names) == 1 {
+			recv = m.decl.Recv.List[0].Names[0].Name
+		}
+		var walk *ast.CallExpr
+		calls := 0
+		ast.Inspect(m.decl.Body, func(n ast.Node) bool {
+			if c, ok := n.(*ast.CallExpr); ok {
+				calls++
+				if se, ok := unparen(c.Fun).(*ast.SelectorExpr); ok && se.Sel.Name == "Walk" {
+					walk = c
+				}
+			}
+			return true
+		})
+		if walk != nil && calls == 1 && len(ps) == 2 && len(walk.Args) == 3 {
+			se := unparen(walk.Fun).(*ast.SelectorExpr)
+			if cs, ok := unparen(se.X).(*ast.SelectorExpr); ok && isIdent(cs.X, recv) {
+				it.Coll = cs.Sel.Name
+				it.WalksAll = isIdent(walk.Args[0], ps[0]) && isIdent(walk.Args[1], "nil") && isIdent(walk.Args[2], ps[1])
+				// nothing else than returning the walk's error
+				for _, st := range m.decl.Body.List {
+					switch x := st.(type) {
+					case *ast.AssignStmt, *ast.ReturnStmt:
+					case *ast.IfStmt:
+						if len(x.Body.List) != 1 {
+							it.WalksAll = false
+						} else if _, ok := x.Body.List[0].(*ast.ReturnStmt); !ok {
+							it.WalksAll = false
+						}
+					default:
+						it.WalksAll = false
+					}
+				}
+			}
+		}
+		out = append(out, it)
+	}
+	sort.Slice(out, func(i, j int) bool { return out[i].Name < out[j].Name })
+	return out
+}
